@@ -136,6 +136,10 @@ def make_doc(version, param, body_kind, base_path, trailing_slash=False):
         elif body_kind == "form":
             body_schema = {"type": "object", "properties": {"a": HOSTILE_STRING, "b": INT_ITEM}, "required": ["a", "b"], "additionalProperties": False}
             media = "application/x-www-form-urlencoded"
+        elif body_kind == "jsonfalsy":
+            # bodies that are falsy in Python are bodies all the same
+            body_schema = {"enum": [0, False, "", [], {}, 0.0]}
+            media = "application/json"
         elif body_kind == "multipart":
             body_schema = {"type": "object", "properties": {"a": HOSTILE_STRING, "b": INT_ITEM}, "required": ["a", "b"], "additionalProperties": False}
             media = "multipart/form-data"
@@ -426,7 +430,7 @@ def run_shard(spec, emit):
     session = requests.Session()
     with RecordingServer(Script()) as server:
         for key, version, param, kind in jobs:
-            for body_kind in (None, rng.choice(["json", "form", "text", "multipart"])):
+            for body_kind in (None, rng.choice(["json", "form", "text", "multipart", "jsonfalsy"])):
                 if time.monotonic() > deadline:
                     emit.count("jobs_skipped_budget")
                     continue
@@ -569,7 +573,11 @@ def judge(param, kind, key, template, base_path, raw, case, record, body_kind, N
         if content_type.split(";")[0].strip() != (case.media_type or "").split(";")[0].strip():
             viols.append(("C06/content-type-differs-from-media-type", f"{content_type!r} vs {case.media_type!r}"))
         try:
-            if body_kind == "json":
+            if body_kind == "jsonfalsy":
+                got = json.loads(sent.decode("utf-8"))
+                if got != raw_body[1] or type(got) is not type(raw_body[1]):
+                    viols.append(("C06/json-body-does-not-round-trip", f"{sent[:60]!r} vs generated {raw_body[1]!r}"))
+            elif body_kind == "json":
                 if json.loads(sent.decode("utf-8")) != json.loads(json.dumps(raw_body[1])):
                     viols.append(("C06/json-body-does-not-round-trip", f"{sent[:100]!r} vs generated {raw_body[1]!r:.100}"))
             elif body_kind == "form":
@@ -603,7 +611,7 @@ def wsgi_part(rng, emit, capture, tier):
 
     matrix = [m for m in operations_matrix() if m[1] == "3.0"]
     for key, version, param, kind in rng.sample(matrix, 8 if tier == "quick" else 40):
-        body_kind = rng.choice(["json", "form", "multipart", "text"])
+        body_kind = rng.choice(["json", "form", "multipart", "text", "jsonfalsy"])
         doc, template, method = make_doc(version, param, body_kind, "", trailing_slash=rng.random() < 0.35)
         flavour = rng.choice(["wsgi", "asgi"])
         app = WsgiCapture() if flavour == "wsgi" else AsgiCapture()
